@@ -194,46 +194,59 @@ theorem context_multiline (w : Char → Nat) (pre lex1 lex2 post : List Char) (t
   simp only [hcol]
   rw [scan_clipped w (lastLine pre) lex1 _ hw, hline]
 
-/-- nothing is printed only for a token at the very end of the text, on the empty line after the
-final line feed — so the "invalid line number" internal error is unreachable for located tokens -/
-theorem context_none (w : Char → Nat) (src : List Char) (t : Tok) (hloc : Spans src t)
-    (h : context w src t = none) : t.offset = utf8Len src := by
+/-- a located token whose line `str::lines` does not yield is at the very end of the text, on the line after the final
+line feed -/
+theorem no_line_is_end_of_file (src : List Char) (t : Tok) (hloc : Spans src t)
+    (hnone : (lines src)[t.line]? = none) : t.offset = utf8Len src := by
   obtain ⟨pre, lex, post, h1, h2, h3, _, _⟩ := hloc
-  unfold context at h
+  have := lines_at pre (lex ++ post)
+  rw [← h3, ← List.append_assoc, ← h1, hnone] at this
+  have hempty : linesGo (lex ++ post) (accAfter pre []) = [] := by
+    cases hl : linesGo (lex ++ post) (accAfter pre []) with
+    | nil => rfl
+    | cons a b => rw [hl] at this; simp at this
+  have : lex ++ post = [] := by
+    cases hlp : lex ++ post with
+    | nil => rfl
+    | cons c cs =>
+      rw [hlp] at hempty
+      simp only [linesGo] at hempty
+      split at hempty
+      · cases hempty
+      · exfalso
+        -- a non-empty accumulator never yields the empty list
+        have key : ∀ (r acc : List Char), acc ≠ [] → linesGo r acc ≠ [] := by
+          intro r
+          induction r with
+          | nil => intro acc ha; cases acc with
+            | nil => exact absurd rfl ha
+            | cons x xs => simp [linesGo]
+          | cons x xs ih =>
+            intro acc ha
+            simp only [linesGo]
+            split
+            · simp
+            · exact ih _ (by simp)
+        exact key cs (c :: accAfter pre []) (by simp) hempty
+  rw [h2, posOf_offset, h1]
+  rw [List.append_assoc, this]; simp
+
+/-- **Every located token gets a context**: a location, an echoed line and carets are printed for every token the lexer
+produces and every error token - the "invalid line number" internal error is unreachable, and (since the repair of the
+end-of-file diagnostic) so is the silent case in which nothing was printed. -/
+theorem context_always (w : Char → Nat) (src : List Char) (t : Tok) (hloc : Spans src t) : (context w src t).isSome = true := by
+  unfold context
   cases hnone : (lines src)[t.line]? with
-  | some l => simp [hnone] at h
-  | none =>
-    have := lines_at pre (lex ++ post)
-    rw [← h3, ← List.append_assoc, ← h1, hnone] at this
-    have hempty : linesGo (lex ++ post) (accAfter pre []) = [] := by
-      cases hl : linesGo (lex ++ post) (accAfter pre []) with
-      | nil => rfl
-      | cons a b => rw [hl] at this; simp at this
-    have : lex ++ post = [] := by
-      cases hlp : lex ++ post with
-      | nil => rfl
-      | cons c cs =>
-        rw [hlp] at hempty
-        simp only [linesGo] at hempty
-        split at hempty
-        · cases hempty
-        · exfalso
-          -- a non-empty accumulator never yields the empty list
-          have key : ∀ (r acc : List Char), acc ≠ [] → linesGo r acc ≠ [] := by
-            intro r
-            induction r with
-            | nil => intro acc ha; cases acc with
-              | nil => exact absurd rfl ha
-              | cons x xs => simp [linesGo]
-            | cons x xs ih =>
-              intro acc ha
-              simp only [linesGo]
-              split
-              · simp
-              · exact ih _ (by simp)
-          exact key cs (c :: accAfter pre []) (by simp) hempty
-    rw [h2, posOf_offset, h1]
-    rw [List.append_assoc, this]; simp
+  | some l => simp
+  | none => simp [no_line_is_end_of_file src t hloc hnone]
+
+/-- at the end of a file that ends with a line feed: the line after the last one, shown empty, one caret -/
+theorem context_end_of_file (w : Char → Nat) (src : List Char) (t : Tok) (hloc : Spans src t)
+    (hnone : (lines src)[t.line]? = none) :
+    context w src t = some { lineNumber := t.line + 1, columnNumber := t.column + 1, echoed := [],
+                             caretOffset := 0, caretCount := 1 } := by
+  unfold context
+  simp [hnone, no_line_is_end_of_file src t hloc hnone, scan, expandTabs]
 
 /-- non-vacuity: a token after a tab, a CJK character and an emoji, in a CRLF file -/
 example :
